@@ -92,7 +92,9 @@ QUERY_EXTRA = ["%62=1&a=2", "b=1&%61=2", "utm%5Fsource=x&a=1", "utm_source=x&a=1
                # values that only differ by case / escaping of a filtered combination
                "ref=%46b&a=1", "ref=Fb&a=1", "ref=fb&a=1", "REF=FB&a=1", "outputType=AMP&a=1", "outputtype=%61mp&a=1", "spref=TW", "m=1&M=0",
                # items that only some domains drop
-               "v=abc&ab_channel=1&t=2", "x=1&_rdr"]
+               "v=abc&ab_channel=1&t=2", "x=1&_rdr",
+               # a key that is a proper prefix of another one ('=' sorts after digits, '-', '.'), next to an escaped upper-case non-ASCII letter
+               "p=1&p2=2&q=%C3%89t%C3%A9", "a&a=1&a-b=1&name=%C3%9Cber", "page.size=2&page=1&t=%D0%9F"]
 # redirection hints (escaped targets, in the query and - where they mean nothing - in the fragment), control characters next to whitespace
 REDIRECTS = ["http://a.com/#x&url=http%3A%2F%2Fb.com%2F%3Fa%3D1%26b%3D2", "http://a.com/p?url=http%3A%2F%2Fb.com%2F%3Fa%3D1%26b%3D2#x&u=http%3A%2F%2Fc.com",
              "http://a.com/?next=%2Fp%3Fa%3D1%26b%3D2", "http://a.com/r?u=https%3A%2F%2FB.com%2F%2541%3Fq%3D%2526", "a.com/#!/x?url=http%3A%2F%2Fb.com",
